@@ -52,7 +52,7 @@ W == IF S[1] = {0} /\ S[2] = {0} THEN LongWindow ELSE Window
 Agree == stage = 2 => NextUpTo(S, rule, ED, zt, t, t + W) = BruteNext(S, rule, ED, zt, t, t + W)
 
 (* calendar round trip on the days the zones touch, and two anchors *)
-CalendarOK == /\ \A z \in (ED + B - 400)..(ED + B + 400) \cup (36000..37300) \cup (72600..73800) : LET c == Civil(z) IN DaysFromCivil(c.y, c.m, c.d) = z /\ c.d >= 1 /\ c.d <= MonthLen(c.y, c.m)
+CalendarOK == /\ \A z \in (ED + B - 400)..(ED + B + 400) \cup (36000..37300) \cup (72600..73800) \cup ((0 - 37300)..(0 - 35000)) : LET c == Civil(z) IN DaysFromCivil(c.y, c.m, c.d) = z /\ c.d >= 1 /\ c.d <= MonthLen(c.y, c.m)
               /\ Civil(0) = [y |-> 2000, m |-> 1, d |-> 1] /\ DayOfWeek(0) = 6
               /\ DaysFromCivil(2024, 2, 29) + 1 = DaysFromCivil(2024, 3, 1)
               /\ DaysFromCivil(2038, 1, 19) = 13898 /\ DayOfWeek(13898) = 2
@@ -61,6 +61,24 @@ CalendarOK == /\ \A z \in (ED + B - 400)..(ED + B + 400) \cup (36000..37300) \cu
               /\ DaysFromCivil(2100, 3, 1) = DaysFromCivil(2100, 2, 28) + 1
               /\ DaysFromCivil(2100, 1, 1) = 36525 /\ DayOfWeek(36525) = 5      \* a Friday
               /\ DaysFromCivil(2200, 1, 1) = 73049 /\ DayOfWeek(73049) = 3      \* a Wednesday
+              /\ ~IsLeap(1900) /\ IsLeap(1896) /\ IsLeap(1904)
+              /\ DaysFromCivil(1900, 1, 1) = 0 - 36524 /\ DayOfWeek(0 - 36524) = 1   \* a Monday
+              /\ Civil(0 - 36524) = [y |-> 1900, m |-> 1, d |-> 1] /\ Civil(0 - 36525) = [y |-> 1899, m |-> 12, d |-> 31]
               /\ FiveYearsOn(DaysFromCivil(2099, 1, 1), 151 * Day + 5) = (DaysFromCivil(2104, 6, 1) - DaysFromCivil(2099, 1, 1)) * Day + 5
 ASSUME CalendarOK
+
+(* the month-by-month search against a day-by-day definition, over long stretches of a fixed-offset zone   *)
+(* (schedules firing at midnight only, so that a day either matches or not): month ends, leap days, the    *)
+(* centuries 1900 / 2100 without 29 February, both day rules                                              *)
+DayScanOK ==
+  \A y0 \in {1899, 2023, 2099} :
+    LET ed == DaysFromCivil(y0, 1, 1)
+        zz == <<[from |-> 0, to |-> 2000 * Day, off |-> 19800]>>
+    IN \A d \in {<<{31}, 0..6, "and">>, <<{29}, 0..6, "and">>, <<{30}, {1}, "or">>, <<1..31, {0}, "and">>} \cup (IF Big THEN {<<1..31, 0..6, "and">>, <<{29, 30}, {6}, "or">>} ELSE {}) :
+       \A mo \in {1..12, {2}, {4, 6, 9, 11}} \cup (IF Big THEN {{2, 12}} ELSE {}) :
+       \A t0 \in {58 * Day + 86399, 364 * Day + 50000, 425 * Day} \cup (IF Big THEN {40 * Day + 7, 200 * Day} ELSE {}) :
+         LET SS == <<{0}, {0}, {0}, d[1], mo, d[2]>>
+             M == {D \in 0..1900 : D * Day - 19800 > t0 /\ MatchesWall(SS, d[3], ed, D * Day)}
+         IN NextUpTo(SS, d[3], ed, zz, t0, 1900 * Day) = IF M = {} THEN None ELSE MinOf(M) * Day - 19800
+ASSUME DayScanOK
 =============================================================================
